@@ -1,12 +1,16 @@
 #!/bin/bash
-# keep_seed.sh <Cxx> <n>: confirm the seeded change (demo passes on /repo, fails on the worktree), run the check
-# against the changed tree, and store it under /verif/seeded/<Cxx>-<n>/
-id=$1; n=${2:-1}; wt=/tmp/mut_$id; out=/tmp/mut_${id}_out; dst=/verif/seeded/$id-$n
+# keep_seed.sh <Cxx> <n>: take the seeded change from /tmp/mut_<Cxx>_out (or an existing seeded/<Cxx>-<n>/),
+# apply it to a FRESH worktree of /repo's current HEAD, confirm the demo (passes on /repo, fails on the
+# changed tree), run the touched-module check against the changed tree, store everything under seeded/.
+id=$1; n=${2:-1}; out=/tmp/mut_${id}_out; dst=/verif/seeded/$id-$n; wt=/tmp/seedwt_$id
 mkdir -p $dst
-cp $out/patch.diff $dst/patch.diff; cp $out/demo.py $dst/demo.py; cp $out/notes.md $dst/notes.md 2>/dev/null
-(cd /tmp && NO_ET=1 PYTHONPATH=/repo timeout 600 /venv/bin/python $dst/demo.py > $dst/demo_unchanged.log 2>&1); a=$?
-(cd /tmp && NO_ET=1 PYTHONPATH=$wt timeout 600 /venv/bin/python $dst/demo.py > $dst/demo_changed.log 2>&1); b=$?
-git -C /repo apply --check $dst/patch.diff; c=$?
+if [ -f $out/patch.diff ]; then cp $out/patch.diff $dst/patch.diff; cp $out/demo.py $dst/demo.py; cp $out/notes.md $dst/notes.md 2>/dev/null; fi
+git -C /repo worktree remove --force $wt 2>/dev/null
+git -C /repo worktree add -q $wt HEAD && cp /repo/pydra/utils/_version.py $wt/pydra/utils/
+if ! git -C $wt apply $dst/patch.diff; then echo "PATCH DOES NOT APPLY to current HEAD"; git -C /repo worktree remove --force $wt; exit 2; fi
+(cd /tmp && NO_ET=1 PYTHONPATH=/repo timeout 900 /venv/bin/python $dst/demo.py > $dst/demo_unchanged.log 2>&1); a=$?
+(cd /tmp && NO_ET=1 PYTHONPATH=$wt timeout 900 /venv/bin/python $dst/demo.py > $dst/demo_changed.log 2>&1); b=$?
 (cd /verif && PYDRA_VERIF_REPO=$wt timeout 3000 ./check $id > $dst/check_changed.log 2>&1); d=$?
-echo "demo unchanged exit=$a changed exit=$b patch-applies-to-repo=$c check-on-changed exit=$d"
-grep -c "^VIOLATION" $dst/check_changed.log
+git -C /repo rev-parse --short HEAD > $dst/applied_to_repo_head.txt
+echo "demo unchanged exit=$a changed exit=$b check-on-changed exit=$d violations=$(grep -c '^VIOLATION' $dst/check_changed.log)"
+if [ "$3" != "keepwt" ]; then git -C /repo worktree remove --force $wt; fi
